@@ -90,13 +90,14 @@ def _cons_spec(rng, solver, df, pen, seed, coords):
     mut = None
     if rng.random() < 0.35 and p > 3:
         mut = str(rng.choice(["zero_col@first", "zero_col@middle", "zero_col@last", "zero_cols_many"]))   # empty CSC columns
-    return dict(check="C05", seed=seed, coords=coords, solver=solver, datafit=df, penalty=pen, storage=storage,
+    return K.widen(rng, dict(check="C05", seed=seed, coords=coords, solver=solver, datafit=df, penalty=pen, storage=storage,
                 fit_intercept=icpt, strategy=strategy, n=n, p=p, mutate_X=mut,
                 xkind=str(rng.choice(["gauss", "ar", "shifted"])), rho=float(rng.choice([0.5, 0.95])),
                 alpha_frac=float(rng.choice([0.02, 0.1, 0.4])),
                 positive=bool(rng.integers(0, 2)) if pen in K.POSFLAG + ["WeightedGroupL2"] else False,
                 zero_weights=True, knobs=knobs, group_style=str(rng.choice(["contig", "perm"])),
-                n_tasks=int(rng.integers(1, 4)), warm=str(rng.choice(["dense", "sparse", "dense"])))
+                n_tasks=int(rng.integers(1, 4)), warm=str(rng.choice(["dense", "sparse", "dense"]))),
+                   prob=0.1, n_range=(40, 100), p_range=(60, 250))
 
 
 def _drift_viol(case, where, d, rel):
@@ -200,7 +201,8 @@ def _cons_shard(spec, emit):
                     if not (f["drift_rel"] <= O.SLACK["conservation_rel"]):
                         viols.append(_drift_viol(case2, "chain-step-%d-return" % step, f["drift"], f["drift_rel"]))
             rec = dict(base, nontrivial=bool(counts["converged_steps"] >= 1), count=counts,
-                       hist={"max_drift_rel_decade": "%d" % (np.floor(np.log10(max(max(drifts), 1e-18))) if drifts else -18)})
+                       hist={"max_drift_rel_decade": "%d" % (np.floor(np.log10(max(max(drifts), 1e-18))) if drifts else -18),
+                             "size": cs.get("size", "small")})
             if viols:
                 rec.update(status="violated", viol=viols[0], viols=viols[:30],
                            obs=dict(case=case.describe(), steps=steps, all=[v["detail"] for v in viols[:6]]))
